@@ -315,6 +315,7 @@ func rulesC15(w *World, r *Report) {
 
 	// ---- R7 content-driven indexes
 	r.Rule("C15.R7", "bounded indexes: in methods of *Whisper every element store/load whose index is a loop-carried counter is dominated by a test counter < len(that slice) (or the loop ranges over the slice)", 4)
+	ruleLastIndexGuarded(w, r, "C15.R7")
 	for _, f := range libFuncs(w) {
 		if f.Signature.Recv() == nil || namedTypeName(f.Signature.Recv().Type()) != "Whisper" {
 			continue
